@@ -85,6 +85,12 @@ func (c *WarmUpTrafficShapingCalculator) CalculateAllowedTokens(_ uint32, _ int3
 			return c.threshold
 		}
 		warningQps := math.Nextafter(1.0/(float64(aboveToken)*c.slope+1.0/c.threshold), math.MaxFloat64)
+		if warningQps < 1.0 && c.threshold >= 1.0 {
+			// A cold rate below one token would reject every single-token request, the pass QPS
+			// would stay zero and the stored tokens would never drain: the rule would admit
+			// nothing at all, forever (any threshold smaller than the cold factor).
+			warningQps = 1.0
+		}
 		return warningQps
 	} else {
 		return c.threshold
